@@ -1,4 +1,5 @@
 import ConcVerif.Proof.LRStep
+import ConcVerif.Proof.LRLive
 /-! # C14 (lr_guarded part) — reads never wait for writers; a writer is delayed only by handles still held
 
 Over the model `Model/LR.lean`.  Reader half: wait-freedom as (1) every read-side pc has an enabled event in
@@ -223,5 +224,144 @@ example : ∃ s, Reachable s ∧ s.pc 0 = .wWait 8 .R false false ∧ s.pc 1 = .
          (0, .ldCnt .R 0), (0, .stCL .R), (0, .ldCnt .L 0), (0, .fBegin .L), (0, .fEnd .L [7]), (0, .unlock), (0, .ret (.modify 7)),
          (0, .call (.modify 8)), (0, .lock), (0, .ldRL .R), (0, .fBegin .L), (0, .fEnd .L [7, 8]), (0, .stRL .L), (0, .ldCL .R)],
       rfl⟩, rfl, rfl, rfl⟩
+
+/-! ## Writer half, without fairness: what terminates and what does not
+
+Environment events (`isEnv`, Proof/LRLive.lean): the calls (`lock_shared`, handle destruction, `modify`), the reads
+through a held handle, the end-of-run observation.  A *progress step* (`Prog`) is a non-environment step that changes
+the pc of its thread; every other non-environment step is an *idle step of the holder of the write mutex*
+(`C14_lr_idle_step_is_spin`): a counter load that returns non-zero (a wait iteration) or a zero seen before, `yld`,
+a store of `cl`, a redundant flag load — the stage-B writer model lets it repeat them at will.
+
+A fairness-free "every `modify` terminates" is FALSE, for the model and for the code: while a client keeps a read
+handle (or a registered reader is not scheduled) the writer's wait loop goes round for ever without any environment
+event (`C14_lr_spin_can_go_on_for_ever`).  What holds for EVERY scheduler:
+* `C14_lr_writer_terminates_partial`: no infinite execution consists, from some point on, of progress steps only;
+  equivalently (`C14_lr_infinite_means_env_or_spin`) every infinite execution contains, after every point, an
+  environment event or an idle step of the mutex holder;
+* `C14_lr_spin_fails_only_registered`: a wait iteration (non-zero counter load) happens only while some reader is
+  registered in that counter (between its increment and its decrement);
+* `C14_lr_thread_cases` / `C14_lr_stuck_means_handles_held` (no deadlock, no livelock between readers and writers):
+  in a reachable state in which no thread can make a progress step, every thread inside a call is a client keeping a
+  read handle, a writer waiting for a counter ALL of whose registered readers are such clients, or a `modify` waiting
+  for the mutex held by such a writer — "a writer is delayed only by read handles that are still held". -/
+
+/-- no infinite execution consists of progress steps only from some point on -/
+theorem C14_lr_writer_terminates_partial (x : Live.Exec step) (N : Nat) (ts : List Tid) (hnd : ts.Nodup)
+    (hts : ∀ n, N ≤ n → x.who n ∈ ts)
+    (hprog : ∀ n, N ≤ n → Prog (x.σ n) (x.who n) (x.ev n) (x.σ (n + 1))) : False :=
+  Live.no_infinite_run_rel rankedRel ts hnd x N trivial hts hprog
+
+/-- a non-environment step that is not a progress step is an idle step of the holder of the write mutex -/
+theorem C14_lr_idle_step_is_spin {s s' : St} {t : Tid} {e : Ev} (hs : step s t e = some s') (he : isEnv e = false)
+    (hn : ¬ Prog s t e s') : (s.pc t).post = true ∧ isWaitEv e = true ∧ s'.pc t = s.pc t := by
+  have hpc : s'.pc t = s.pc t := Classical.byContradiction (fun h => hn ⟨he, h⟩)
+  exact ⟨(idle_is_holder hs he hpc).1, (idle_is_holder hs he hpc).2, hpc⟩
+
+/-- every infinite execution (threads from a finite set) contains after every point an environment event or an idle
+step of the holder of the write mutex -/
+theorem C14_lr_infinite_means_env_or_spin (x : Live.Exec step) (N : Nat) (ts : List Tid) (hnd : ts.Nodup)
+    (hts : ∀ n, N ≤ n → x.who n ∈ ts) :
+    ∃ n, N ≤ n ∧ (isEnv (x.ev n) = true ∨
+      (((x.σ n).pc (x.who n)).post = true ∧ isWaitEv (x.ev n) = true ∧
+        (x.σ (n + 1)).pc (x.who n) = (x.σ n).pc (x.who n))) := by
+  apply Classical.byContradiction
+  intro hno
+  apply C14_lr_writer_terminates_partial x N ts hnd hts
+  intro n hn
+  cases he : isEnv (x.ev n) with
+  | true => exact absurd ⟨n, hn, Or.inl he⟩ hno
+  | false =>
+    refine ⟨he, fun hpc => hno ⟨n, hn, Or.inr ?_⟩⟩
+    exact ⟨(idle_is_holder (x.ok n) he hpc).1, (idle_is_holder (x.ok n) he hpc).2, hpc⟩
+
+/-- a wait iteration happens only while a reader is registered in the counter waited for -/
+theorem C14_lr_spin_fails_only_registered {s s' : St} (h : Reachable s) {w : Tid} {c : Side} {v : Nat}
+    (hs : step s w (.ldCnt c v) = some s') (hv : v ≠ 0) : ∃ r, (s.pc r).regIn = some c := by
+  have hi := (full_reachable h).inv
+  have hlen : v = (s.reg c).length := by
+    cases hp : s.pc w <;> simp [step, hp, Pc.post, stutter] at hs
+    all_goals (first | exact hs.1 | skip)
+  cases hr : s.reg c with
+  | nil => rw [hr] at hlen; exact absurd hlen hv
+  | cons r rest => exact ⟨r, (hi.mem r c).1 (by rw [hr]; simp)⟩
+
+/-- every thread of a reachable state: idle, able to make a progress step, a client keeping a read handle, a
+`modify` waiting for the write mutex, or a writer all of whose unseen counters have registered readers -/
+theorem C14_lr_thread_cases {s : St} (h : Reachable s) (t : Tid) :
+    s.pc t = .idle ∨ CanProg s t ∨ (∃ c, HoldsHandle s t c) ∨
+    (∃ op, s.pc t = .wCalled op ∧ ∃ w, s.mtx = some w) ∨ WriterWaits s t :=
+  thread_cases (full_reachable h).inv t
+
+/-- a writer that cannot make a progress step waits for a counter all of whose registered readers — and there is
+at least one — are clients keeping a read handle, provided no reader can make a progress step either -/
+theorem C14_lr_waiting_writer_blockers {s : St} (h : Reachable s) (hstuck : ∀ u, ¬ CanProg s u) {w : Tid}
+    (hw : WriterWaits s w) :
+    ∃ c, s.reg c ≠ [] ∧ ∀ r, r ∈ s.reg c → HoldsHandle s r c := by
+  have hi := (full_reachable h).inv
+  obtain ⟨op, l, zL, zR, _, ⟨c, hc⟩, hall⟩ := hw
+  refine ⟨c, hall c hc, fun r hr => ?_⟩
+  have hreg := (hi.mem r c).1 hr
+  rcases thread_cases hi r with h1 | h1 | ⟨c', x, h1⟩ | ⟨op', h1, _⟩ | ⟨op', l', a, b, h1, _⟩
+  · rw [h1] at hreg; simp [Pc.regIn] at hreg
+  · exact absurd h1 (hstuck r)
+  · rw [h1] at hreg; simp only [Pc.regIn, Option.some.injEq] at hreg; subst hreg; exact ⟨x, h1⟩
+  · rw [h1] at hreg; simp [Pc.regIn] at hreg
+  · rw [h1] at hreg; simp [Pc.regIn] at hreg
+
+/-- **no deadlock, no livelock between readers and writers**: in a reachable state in which no thread can make a
+progress step, every thread inside a call is a client keeping a read handle, or a writer waiting for a counter all
+of whose (at least one) registered readers are such clients, or a `modify` waiting for the write mutex held by such
+a writer -/
+theorem C14_lr_stuck_means_handles_held {s : St} (h : Reachable s) (hstuck : ∀ u, ¬ CanProg s u) (t : Tid)
+    (ht : s.pc t ≠ .idle) :
+    (∃ c, HoldsHandle s t c) ∨
+    ((WriterWaits s t ∨ ∃ op w, s.pc t = .wCalled op ∧ s.mtx = some w ∧ WriterWaits s w) ∧
+      ∃ c, s.reg c ≠ [] ∧ ∀ r, r ∈ s.reg c → HoldsHandle s r c) := by
+  have hi := (full_reachable h).inv
+  rcases thread_cases hi t with h1 | h1 | h1 | ⟨op, h1, w, hw⟩ | h1
+  · exact absurd h1 ht
+  · exact absurd h1 (hstuck t)
+  · exact Or.inl h1
+  · have hpost := (hi.holder w).2 hw
+    have hww : WriterWaits s w := by
+      rcases thread_cases hi w with h2 | h2 | ⟨c, x, h2⟩ | ⟨op', h2, _⟩ | h2
+      · rw [h2] at hpost; simp [Pc.post] at hpost
+      · exact absurd h2 (hstuck w)
+      · rw [h2] at hpost; simp [Pc.post] at hpost
+      · rw [h2] at hpost; simp [Pc.post] at hpost
+      · exact h2
+    exact Or.inr ⟨Or.inr ⟨op, w, h1, hw, hww⟩, C14_lr_waiting_writer_blockers h hstuck hww⟩
+  · exact Or.inr ⟨Or.inl h1, C14_lr_waiting_writer_blockers h hstuck h1⟩
+
+/-- … so once no handle is kept and nobody can make a progress step, every thread has returned -/
+theorem C14_lr_stuck_no_handle_all_returned {s : St} (h : Reachable s) (hstuck : ∀ u, ¬ CanProg s u)
+    (hnh : ∀ u c, ¬ HoldsHandle s u c) (t : Tid) : s.pc t = .idle := by
+  apply Classical.byContradiction
+  intro ht
+  rcases C14_lr_stuck_means_handles_held h hstuck t ht with ⟨c, h1⟩ | ⟨_, c, hne, hall⟩
+  · exact hnh t c h1
+  · cases hr : s.reg c with
+    | nil => exact hne hr
+    | cons r rest => exact hnh r c (hall r (by rw [hr]; simp))
+
+/-- why the exception is needed: with a read handle kept, the writer's wait iteration is a self-loop of the state —
+an infinite execution without any environment event (non-strict and strict mode alike) -/
+theorem C14_lr_spin_can_go_on_for_ever :
+    ∃ s, Reachable s ∧ s.strict = true ∧ (∃ c, HoldsHandle s 1 c) ∧ WriterWaits s 0 ∧
+      step s 0 (.ldCnt .L 1) = some s ∧ step s 0 .yld = some s ∧ isEnv (.ldCnt .L 1) = false :=
+  ⟨_, ⟨true, [(1, .call (.ls 0)), (1, .ldCL .L), (1, .inc .L 0), (1, .ldRL .L), (1, .ret (.ls 0)),
+         (0, .call (.modify 7)), (0, .lock), (0, .ldRL .L), (0, .fBegin .R), (0, .fEnd .R [7]), (0, .stRL .R), (0, .ldCL .L),
+         (0, .ldCnt .R 0), (0, .stCL .R)], rfl⟩, rfl, ⟨.L, .L, rfl⟩,
+   ⟨7, .L, false, true, rfl, ⟨.L, rfl⟩, by intro c hc; cases c <;> simp [zOf] at hc; decide⟩, rfl, rfl, rfl⟩
+
+/-- non-vacuity of the progress side: in that state the reader's client releases the handle (environment), after
+which reader and writer make progress steps only and everybody returns; total rank 8 + 0 before -/
+example : ∃ s s', Reachable s ∧ μ s 0 = 8 ∧ μ s 1 = 0 ∧
+    run s [(1, .call .rel), (1, .dec .L 1), (1, .ret .rel), (0, .ldCnt .L 0), (0, .fBegin .L), (0, .fEnd .L [7]),
+           (0, .unlock), (0, .ret (.modify 7))] = some s' ∧ s'.pc 0 = .idle ∧ s'.pc 1 = .idle :=
+  ⟨_, _, ⟨true, [(1, .call (.ls 0)), (1, .ldCL .L), (1, .inc .L 0), (1, .ldRL .L), (1, .ret (.ls 0)),
+         (0, .call (.modify 7)), (0, .lock), (0, .ldRL .L), (0, .fBegin .R), (0, .fEnd .R [7]), (0, .stRL .R), (0, .ldCL .L),
+         (0, .ldCnt .R 0), (0, .stCL .R)], rfl⟩, rfl, rfl, rfl, rfl, rfl⟩
 
 end ConcVerif.LR
